@@ -98,7 +98,8 @@ def classify(meta, res, gen_text):
     j = res['json']
     # once Verus reports `verified: N` it has passed type/mode checking: every error diagnostic from then on is a failed proof obligation
     vr0 = (j or {}).get('verification-results') or {}
-    ran_verification = ('verified' in vr0) and not vr0.get('encountered-vir-error')
+    # (on a rustc or VIR error Verus stops first and reports verified: 0, errors: 0)
+    ran_verification = (vr0.get('verified', 0) + vr0.get('errors', 0) > 0) and not vr0.get('encountered-vir-error')
     for d in res['diags']:
         if d.get('level') != 'error': continue
         msg = d.get('message', '')
@@ -112,7 +113,8 @@ def classify(meta, res, gen_text):
         labels = [(s.get('label') or '') for s in d.get('spans', [])]
         rec = {'message': msg, 'lines': span_lines[:12], 'labels': labels,
                'text': [lines[l - 1].strip()[:200] for l in span_lines[:4] if 0 < l <= len(lines)]}
-        definite = any(k in msg for k in DEFINITE) or (ran_verification and not any(k in msg for k in RESOURCE))
+        rustc_code = (d.get('code') or {}).get('code')
+        definite = (any(k in msg for k in DEFINITE) or (ran_verification and not any(k in msg for k in RESOURCE))) and not rustc_code
         resource = any(k in msg for k in RESOURCE)
         items_hit = {line_item.get(l) for l in span_lines if line_item.get(l)}
         fns_hit = {fnmap.get(l) for l in span_lines}
